@@ -168,7 +168,7 @@ fn apply(op: &Op, b: &mut Vec<u8>, lookup: &dyn Fn(&str) -> Vec<u8>) {
             const DICT: &[&str] = &[
                 "{", "}", "[", "]", "(", ")", "or", "OR", "|OR|", "when", "WHEN", "rule", "let", "not", "!", "some", "SOME", "this", "keys", "==", "!=", ">=", "<=", ">", "<", "in", "IN", "exists", "empty",
                 "!exists", "!empty", "is_string", "is_list", "is_struct", "<<", ">>", "<<msg>>", "%", "%v1", "*", ".*", "[*]", "[0]", "[-1]", "r[1,", "r(", "/re/", "/(/", "'", "\"", "#", ":=", "=", ",", ":", "null", "true",
-                "99999999999999999999", "-9223372036854775808", "1e999", "1.", ".5", "0x10", "count(", "now()", "join(", "parse_int(", "AWS::S3::Bucket", "AWS::", "::", "a.b.c.d.e.f.g.h", "[ a == 1 ]", "[ keys == /a/ ]", "[ k | a exists ]",
+                "99999999999999999999", "-9223372036854775808", "1e999", "1e+999", "1e+309", "9.9e+400", "1e-999", "0.0", "1.", ".5", "0x10", "count(", "now()", "join(", "parse_int(", "AWS::S3::Bucket", "AWS::", "::", "a.b.c.d.e.f.g.h", "[ a == 1 ]", "[ keys == /a/ ]", "[ k | a exists ]",
             ];
             let mut r = Rng::new(*seed);
             if *kind <= 3 {
